@@ -90,7 +90,7 @@ def observe(base, root, entries):
     with open(dbp, "w") as f:
         json.dump([e["entry"] for e in entries], f)
     env.capture.records.clear()
-    config._compilers = None
+    env.reset_compilers()
     try:
         res = config.load_database(dbp, root)
     except Exception as e:  # noqa
